@@ -12,11 +12,11 @@ CHECKS = {
          "Three owned dimensions: (1) every schedule of the real scheduler loop within d priority demotions of two base orders on generated sources — each yields a font, all bytes must agree with the inline build; (2) hash seeds 0..S through a getrandom interposer for every compilable repo fixture and the generated family under several option sets; (3) pool sizes with the real rayon pool (labelled uncontrolled). States/transitions/executions are reported.",
          "Sequentially consistent exploration; rayon replaced by a k-slot pool model in (1); real-pool schedules in (3) are sampled, the exhaustive schedule claim rests on (1). SOURCE_DATE_EPOCH fixed. Seeds outside the enumerated set and schedules beyond the demotion bound are not covered.",
          "DESIGN.md §2.1, §2.2, §3 C01"),
- "C02": ("model_checking", "stateful DFS by re-execution of the real Workload::exec under a controlled scheduler (all schedules within d demotions, visited-state matching, happens-before monitor on every context access) + explicit-state exploration, without a deviation bound, of an abstract scheduler model extracted from a recorded execution, every explored implementation execution replayed against the model",
+ "C02": ("model_checking", "stateful DFS by re-execution of the real Workload::exec under a controlled scheduler (all schedules within d demotions, visited-state matching, happens-before monitor on every context access) + explicit-state exploration, without a deviation bound, of an abstract scheduler model extracted from a recorded execution, every explored implementation execution replayed against the model, and a transition-label-covering set of model traces (plus every model counterexample) replayed on the implementation by a guided scheduler",
          "engine-A",
-         "(1) Every schedule of the real scheduler loop and its worker closures within d priority demotions (two base orders, pool sizes k) for a family of tiny sources that exercise each dynamic rule of handle_success, plus a kitchen-sink source on the default schedules; on every execution: no scheduler failure on a valid source, no deadlock, every conflicting pair of context accesses of two jobs ordered by happens-before. (2) For each tiny source an abstract model of the scheduler (job statuses, re-implemented can_run, counters, the effect of every handle_success taken from scheduler snapshots) explored breadth-first over every interleaving of the dynamic jobs: whenever a job launches, every job whose conflicting access came first in the reference run has finished; no unable-to-proceed, no has-to-be-pending, no double completion. (3) Conformance: every execution of (1) is replayed against the model of (2) (launches allowed, pending sets, accesses and counters equal at every snapshot).",
-         "Hooks (cfg fontc_verif) announce each synchronisation step and print scheduler snapshots; exploration is sequentially consistent; no preemption inside Work::exec (ordering is judged on launch/finish edges); state merging is sound while the race monitor holds. The model is explored for sources of <= 4 glyphs; its counterexamples carry a model trace and are not replayed on the implementation; accesses of the main thread are recorded, not judged. Implementation schedules needing more demotions than the completed d, other sources, weak memory are not covered.",
-         "DESIGN.md §2.2, §2.2b, §3 C02"),
+         "(1) Every schedule of the real scheduler loop and its worker closures within d priority demotions (two base orders, pool sizes k) for a family of tiny sources that exercise each dynamic rule of handle_success, plus a kitchen-sink source on the default schedules; on every execution: no scheduler failure on a valid source, no deadlock, every conflicting pair of context accesses of two jobs ordered by happens-before. (2) For each tiny source an abstract model of the scheduler (job statuses, re-implemented can_run, counters, the effect of every handle_success taken from scheduler snapshots) explored breadth-first over every interleaving of the dynamic jobs: whenever a job launches, every job whose conflicting access came first in the reference run has finished; no unable-to-proceed, no has-to-be-pending, no double completion. (3) Conformance: every execution of (1) is replayed against the model of (2) (launches allowed, pending sets, accesses and counters equal at every snapshot). (4) The other direction: model traces that between them take every distinct transition label are executed on the real scheduler under guidance (Scan / Finish / Batch steps); each must be followable to its end, launch what the model launches, conform, and end in the default schedule's font.",
+         "Hooks (cfg fontc_verif) announce each synchronisation step and print scheduler snapshots; exploration is sequentially consistent; no preemption inside Work::exec (ordering is judged on launch/finish edges); state merging is sound while the race monitor holds. The model is explored for sources of <= 4 glyphs; its counterexamples carry a model trace, the guide derived from it and what the implementation did on that schedule; the replayed traces are a label cover, not every path of the model; accesses of the main thread are recorded, not judged. Implementation schedules needing more demotions than the completed d, other sources, weak memory are not covered.",
+         "DESIGN.md §2.2, §2.2b, §2.2c, §3 C02"),
  "C03": ("exploration", "bounded-exhaustive enumeration of small variable designs (master sets x glyph kinds x perturbations x sparseness) compiled by the real compiler, judged by an independent gvar/IUP evaluator against the source drawing",
          "small-scope-compile",
          "Every design of the stated alphabet is compiled and every glyph instantiated at every master location by an evaluator written from the OpenType spec (cross-checked against skrifa); outlines must equal the master's drawing within the derived rounding/IUP bound, exactly at the default.",
@@ -145,7 +145,7 @@ def main():
         "engines": [
             {"name": "pure-sweeps", "path": "harness/checks/src/bin", "serves_properties": ["C07", "C08", "C13", "C14", "C16"], "kind_free_text": "bounded-exhaustive enumeration of inputs of a pure API against an independent reference"},
             {"name": "engine-A", "path": "harness/vrt", "serves_properties": ["C01", "C02"], "kind_free_text": "controlled scheduler over the real Workload::exec: stateful DFS by re-execution, demotion-bounded, happens-before monitor"},
-            {"name": "engine-A-prime", "path": "harness/vrt/src/absmodel.rs", "serves_properties": ["C02"], "kind_free_text": "abstract scheduler model extracted from scheduler snapshots of a recorded execution; explicit-state breadth-first exploration of every interleaving of the dynamic jobs; every explored implementation execution replayed against the model"},
+            {"name": "engine-A-prime", "path": "harness/vrt/src/absmodel.rs", "serves_properties": ["C02"], "kind_free_text": "abstract scheduler model extracted from scheduler snapshots of a recorded execution; explicit-state breadth-first exploration of every interleaving of the dynamic jobs; every explored implementation execution replayed against the model; model traces replayed on the implementation by a guided scheduler"},
             {"name": "small-scope-compile", "path": "harness/dgen + harness/otref,otvar,otlayout", "serves_properties": ["C03","C04","C05","C06","C09","C10","C11","C12","C15","C16","C17","C18","C19","C20"], "kind_free_text": "every design of a small alphabet compiled by the real compiler and judged by an independent OpenType evaluator"},
         ],
         "checks": checks,
